@@ -117,6 +117,30 @@ theorem C07_buildTable_columns (E : Env α) (F : Forest α) (convs : List (Conv 
 
 end
 
+/-- C07 (schema, `NoClustering` and `SingleClustering`): under the plans these strategies build for a table of `n ≥ 1` columns the assembled
+table has exactly the columns `0 .. n-1`. -/
+theorem C07_simple_plans_schema {α : Type} [Add α] [Sub α] [Mul α] [Div α] [LT α] [LE α] [BEq α]
+    [DecidableLT α] [DecidableLE α] [ScalarOps α] [Inhabited α]
+    (E : Env α) (F : Forest α) (convs : List (Conv α)) (isIntegral : List Bool) (entropy : List α)
+    (threshRel : α) (n : Nat) (hn : 1 ≤ n) (cl : Clusters) (hcl : cl = noClusteringPlan n ∨ cl = singleClusteringPlan n)
+    (streams : List (List Nat × List (Draw α))) (s s' : List (Draw α)) (res : MTable (Cell α) α)
+    (h : (buildTable E F convs isIntegral entropy threshRel cl streams).run s = .ok (res, s')) :
+    ∀ j, j ∈ res.2 ↔ j < n := by
+  intro j
+  rw [C07_buildTable_columns E F convs isIntegral entropy threshRel cl streams s s' res h j]
+  rcases hcl with rfl | rfl
+  · simp only [noClusteringPlan, List.mem_singleton, List.mem_map, List.mem_range]
+    constructor
+    · rintro (rfl | ⟨dc, ⟨i, hi, rfl⟩, hj⟩)
+      · omega
+      · simp only [List.not_mem_nil, List.mem_singleton, false_or] at hj
+        omega
+    · intro hj
+      by_cases h0 : j = 0
+      · exact Or.inl h0
+      · exact Or.inr ⟨⟨.shared, [], [j - 1 + 1]⟩, ⟨j - 1, by omega, rfl⟩, Or.inr (by simp; omega)⟩
+  · simp [singleClusteringPlan]
+
 /-- the columns a well-formed plan mentions anywhere (initial, stitch or derived) are exactly the table's columns -/
 theorem wellFormed_columns (n : Nat) (main : Option Nat) (c : Clusters) (h : WellFormedPlan n main c) (j : Nat) :
     (j ∈ c.initial ∨ ∃ dc ∈ c.derivedClusters, j ∈ dc.stitch ∨ j ∈ dc.derived) ↔ j < n := by
